@@ -212,3 +212,213 @@ Proof.
   - reflexivity.
   - apply r2_isotropic_2d_dir. apply Rgt_not_eq. apply Rlt_gt. apply Rlt_0_2.
 Qed.
+
+(* ======================================================================
+   Final composition: jacobian(vect) is the gradient of residual(vect).
+   Model/Jacobian2.v : residual / jacobian of FitFunctions.get_residual as
+                       functions of the packed vector (unpack, loop over the
+                       clusters, writes into `result`, pack with np.sum, /norm)
+   Proofs/Jacobian2.v: the composition of the pieces above
+   ====================================================================== *)
+From Coq Require Import Lra.
+From TP Require Import Model.Jacobian2 Proofs.Jacobian2.
+
+(* vect_to_params only copies entries: it commutes with ANY element-wise
+   combination h of two vectors / two arrays -- for arbitrary element types
+   A, B, C (no arithmetic involved), all modes and all disjoint groupings.
+   With h a b = a + t*b this is "unpack is affine in the vector". *)
+Theorem C15_unpack_natural :
+  forall (A B C : Type) (h : A -> B -> C) (groups : groups_t) (n : nat) (modes : list nat)
+         (cs0 : list (list A)) (ds0 : list (list B)) (v : list A) (w : list B)
+         (r1 : list A) (r2 : list B) (r3 : list C),
+  length modes = length cs0 -> length modes = length ds0 ->
+  List.Forall (fun c => length c = n) cs0 -> List.Forall (fun c => length c = n) ds0 ->
+  List.Forall (mode_wf groups n) modes ->
+  length v = packed_len groups n modes -> length w = packed_len groups n modes ->
+  exists P D, unpack groups n modes (v ++ r1) cs0 = Some (P, r1) /\
+              unpack groups n modes (w ++ r2) ds0 = Some (D, r2) /\
+              unpack groups n modes (zipw h v w ++ r3) (zipw (zipw h) cs0 ds0)
+                = Some (zipw (zipw h) P D, r3) /\
+              List.Forall (fun c => length c = n) P /\ List.Forall (fun c => length c = n) D /\
+              length P = length modes /\ length D = length modes.
+Proof. exact @unpack_zipw. Qed.
+Print Assumptions C15_unpack_natural.
+
+(* THE GRADIENT IS EXACT.
+   cls     : the clusters, zip(cl_groups, images, meshes, masks); per cluster the
+             rows `cl_idx`, the pixels `cl_pix` that survive np.nansum, len(image),
+             image, and per feature row i / pixel x / parameter row p
+               cl_val i x p = what the feature subtracts from diff[x]
+               cl_row i x p = derivs[j, :, x]
+   modes   : m0 :: ms, one mode per column (background first); ANY modes
+             (const, var, global, cluster, custom groups) on the columns ms
+   groups  : ANY grouping whose used groups are non-empty, in range and disjoint (mode_wf)
+   cols0   : params_const;  v : the packed vector, of the packed length
+   Hypotheses: the clusters are cl_groups (= groups[0], or arange(n) if groups is
+   None) and partition the rows; the background mode is compatible with one
+   background per cluster (always true for const/global/cluster, see below);
+   and, at the parameters P = vect_to_params(v), derivs[j,:,x] is the gradient
+   of the feature's contribution in the feature's own row p[1:] (background
+   excluded) -- proved for gauss and ring in all geometries further down.
+   Conclusion: jacobian(v) returns a vector g of the length of v with
+     - d/dt residual(v + t*w) at t=0  =  <g, w>   for EVERY direction w, and
+     - d/ds residual(v[k := s]) at s = v[k]  =  g[k]   for EVERY component k. *)
+Theorem C15_gradient_exact :
+  forall (X : Type) (cls : list (cluster X)) (groups : groups_t) (n m0 : nat) (ms : list nat)
+         (cols0 : list (list R)) (norm : R) (v : list R),
+  length (m0 :: ms) = length cols0 ->
+  List.Forall (fun c => length c = n) cols0 ->
+  List.Forall (mode_wf groups n) (m0 :: ms) ->
+  length v = packed_len groups n (m0 :: ms) ->
+  map cl_idx cls = cl_groups_of groups n ->
+  partition n (cl_groups_of groups n) ->
+  bg_mode_ok groups (cl_groups_of groups n) m0 ->
+  (forall P rest, unpack groups n (m0 :: ms) v cols0 = Some (P, rest) ->
+     forall c i x dp, In c cls -> In i (cl_idx c) -> In x (cl_pix c) -> length dp = length (m0 :: ms) ->
+     is_derive (fun t => cl_val c i x (line (row_of P i) dp t)) 0
+               (dot (cl_row c i x (row_of P i)) (tl dp))) ->
+  exists g, jacobian cls groups n (m0 :: ms) cols0 norm v = Some g /\
+            length g = length v /\
+    (forall w, length w = length v ->
+       is_derive (fun t => residual cls groups n (m0 :: ms) cols0 norm (line v w t)) 0 (dot g w)) /\
+    (forall k, (k < length v)%nat ->
+       is_derive (fun s => residual cls groups n (m0 :: ms) cols0 norm (upd v k s)) (nth k v 0) (nth k g 0)).
+Proof. exact @gradient_exact. Qed.
+Print Assumptions C15_gradient_exact.
+
+(* the side conditions are dischargeable: const (0), global (2) and cluster (3)
+   are admissible background modes for every grouping, and groups=None gives
+   the single cluster arange(n) *)
+Theorem C15_bg_mode_builtin : forall groups n m0,
+  m0 = 0%nat \/ m0 = 2%nat \/ m0 = 3%nat -> mode_wf groups n m0 ->
+  bg_mode_ok groups (cl_groups_of groups n) m0.
+Proof. exact bg_mode_ok_builtin. Qed.
+Theorem C15_partition_none : forall n, (0 < n)%nat -> partition n (cl_groups_of None n).
+Proof. exact partition_none. Qed.
+
+(* the sum exchange on its own (pure algebra, no derivative): the array
+   `result` written by the loop over the clusters, contracted with any
+   direction array D whose background column is constant on every cluster,
+   is the sum over the clusters of
+     sum_x -2*diff[x]*(D[indices[0],0] + sum_f <derivs[f,:,x], D[f,1:]>) / len(image) *)
+Theorem C15_jacobian_sum_exchange :
+  forall (X : Type) (cls : list (cluster X)) (n nv' : nat) (P D : list (list R)),
+  partition n (map cl_idx cls) -> length D = S nv' -> List.Forall (fun c => length c = n) D ->
+  (forall c i, In c cls -> In i (cl_idx c) ->
+     nth i (nth 0 D []) 0 = nth (hd 0%nat (cl_idx c)) (nth 0 D []) 0) ->
+  mdot (to_cols n (S nv') (jac_arr cls P)) D
+  = sumR (map (fun c =>
+      sumR (map (fun x => -2 * diff_at (cl_idx c) (cl_img c) (bg_of c P) (vals_of c P) x
+                          * (nth (hd 0%nat (cl_idx c)) (nth 0 D []) 0
+                             + sumR (map (fun i => dot (rows_of c P i x) (tl (row_of D i))) (cl_idx c))))
+                (cl_pix c)) / cl_len c) cls).
+Proof. exact @assemble. Qed.
+
+(* the four (r2_fun, dr2_fun) pairs: dr2 is the gradient of r2 in the
+   position/size slice wherever all sizes are non-zero *)
+Theorem C15_geometries_ok :
+  geom_ok geom_iso2d ok_iso2d /\ geom_ok geom_iso3d ok_iso3d /\
+  geom_ok geom_aniso2d ok_aniso2d /\ geom_ok geom_aniso3d ok_aniso3d.
+Proof. exact (conj geom_iso2d_ok (conj geom_iso3d_ok (conj geom_aniso2d_ok geom_aniso3d_ok))). Qed.
+
+(* gauss, any sound geometry G (2-D/3-D, isotropic/anisotropic): rows are
+   (background, signal, <pos>, <size>); cl_val / cl_row are the generated
+   gauss_fun / gauss_dfun / r2 / dr2 under the feature masks.  Admissible
+   = every size non-zero at the current parameters. *)
+Theorem C15_gradient_exact_gauss :
+  forall (X : Type) (G : geometry) (okq : list R -> Prop), geom_ok G okq ->
+  forall (ndim : R) (mesh : cluster X -> X -> list R) (mask : cluster X -> nat -> X -> bool)
+         (cls : list (cluster X)) (groups : groups_t) (n m0 : nat) (ms : list nat)
+         (cols0 : list (list R)) (norm : R) (v : list R),
+  length (m0 :: ms) = length cols0 ->
+  List.Forall (fun c => length c = n) cols0 ->
+  List.Forall (mode_wf groups n) (m0 :: ms) ->
+  length v = packed_len groups n (m0 :: ms) ->
+  map cl_idx cls = cl_groups_of groups n ->
+  partition n (cl_groups_of groups n) ->
+  bg_mode_ok groups (cl_groups_of groups n) m0 ->
+  length ms = (1 + g_np G)%nat ->
+  (forall c, In c cls -> cl_val c = gauss_val G ndim (mesh c) (mask c) /\
+                         cl_row c = gauss_row G ndim (mesh c) (mask c)) ->
+  (forall P rest, unpack groups n (m0 :: ms) v cols0 = Some (P, rest) ->
+     forall c i, In c cls -> In i (cl_idx c) -> okq (geo_slice G (row_of P i))) ->
+  exists g, jacobian cls groups n (m0 :: ms) cols0 norm v = Some g /\ length g = length v /\
+    (forall w, length w = length v ->
+       is_derive (fun t => residual cls groups n (m0 :: ms) cols0 norm (line v w t)) 0 (dot g w)) /\
+    (forall k, (k < length v)%nat ->
+       is_derive (fun s => residual cls groups n (m0 :: ms) cols0 norm (upd v k s)) (nth k v 0) (nth k g 0)).
+Proof. exact @gradient_exact_gauss. Qed.
+Print Assumptions C15_gradient_exact_gauss.
+
+(* ring: rows are (background, signal, <pos>, <size>, thickness).  Admissible
+   = sizes and thickness non-zero and every masked surviving pixel at positive
+   reduced radius (the _safe radius functions NaN-out r < 1 px). *)
+Theorem C15_gradient_exact_ring :
+  forall (X : Type) (G : geometry) (okq : list R -> Prop), geom_ok G okq ->
+  forall (ndim : R) (mesh : cluster X -> X -> list R) (mask : cluster X -> nat -> X -> bool)
+         (cls : list (cluster X)) (groups : groups_t) (n m0 : nat) (ms : list nat)
+         (cols0 : list (list R)) (norm : R) (v : list R),
+  length (m0 :: ms) = length cols0 ->
+  List.Forall (fun c => length c = n) cols0 ->
+  List.Forall (mode_wf groups n) (m0 :: ms) ->
+  length v = packed_len groups n (m0 :: ms) ->
+  map cl_idx cls = cl_groups_of groups n ->
+  partition n (cl_groups_of groups n) ->
+  bg_mode_ok groups (cl_groups_of groups n) m0 ->
+  length ms = (2 + g_np G)%nat ->
+  (forall c, In c cls -> cl_val c = ring_val G ndim (mesh c) (mask c) /\
+                         cl_row c = ring_row G ndim (mesh c) (mask c)) ->
+  (forall P rest, unpack groups n (m0 :: ms) v cols0 = Some (P, rest) ->
+     forall c i, In c cls -> In i (cl_idx c) ->
+       okq (geo_slice G (row_of P i)) /\ nth (2 + g_np G) (row_of P i) 0 <> 0 /\
+       forall x, In x (cl_pix c) -> mask c i x = true -> 0 < g_r2 G (mesh c x) (geo_slice G (row_of P i))) ->
+  exists g, jacobian cls groups n (m0 :: ms) cols0 norm v = Some g /\ length g = length v /\
+    (forall w, length w = length v ->
+       is_derive (fun t => residual cls groups n (m0 :: ms) cols0 norm (line v w t)) 0 (dot g w)) /\
+    (forall k, (k < length v)%nat ->
+       is_derive (fun s => residual cls groups n (m0 :: ms) cols0 norm (upd v k s)) (nth k v 0) (nth k g 0)).
+Proof. exact @gradient_exact_ring. Qed.
+Print Assumptions C15_gradient_exact_ring.
+
+(* non-vacuity: two single-feature clusters, 2-D isotropic gauss, modes
+   (background:cluster, signal:var, y:var, x:var, size:const), three pixels per
+   sub-image: every hypothesis of C15_gradient_exact_gauss holds, so all eight
+   partial derivatives of the residual are the entries of jacobian(v) *)
+Definition C15_ex_cluster (i : nat) : cluster nat :=
+  mkCluster [i] [0%nat; 1%nat; 2%nat] 3 (fun x => INR x)
+            (gauss_val geom_iso2d 2 (fun x => [INR x; 1]) (fun _ _ => true))
+            (gauss_row geom_iso2d 2 (fun x => [INR x; 1]) (fun _ _ => true)).
+Definition C15_ex_groups : groups_t := Some [[[0%nat]; [1%nat]]].
+Definition C15_ex_cols0 : list (list R) := [[0; 0]; [0; 0]; [0; 0]; [0; 0]; [2; 2]].
+Definition C15_ex_v : list R := [1; 1; 3; 4; 0; 1; 1; 0].
+
+Example C15_gradient_exact_instance :
+  exists g, jacobian [C15_ex_cluster 0; C15_ex_cluster 1] C15_ex_groups 2 [3; 1; 1; 1; 0]%nat C15_ex_cols0 1 C15_ex_v = Some g /\
+            length g = 8%nat /\
+    (forall k, (k < 8)%nat ->
+       is_derive (fun s => residual [C15_ex_cluster 0; C15_ex_cluster 1] C15_ex_groups 2 [3; 1; 1; 1; 0]%nat
+                                    C15_ex_cols0 1 (upd C15_ex_v k s))
+                 (nth k C15_ex_v 0) (nth k g 0)).
+Proof.
+  destruct (gradient_exact_gauss geom_iso2d ok_iso2d geom_iso2d_ok 2
+              (fun _ x => [INR x; 1]) (fun _ _ _ => true)
+              [C15_ex_cluster 0; C15_ex_cluster 1] C15_ex_groups 2 3 [1; 1; 1; 0]%nat C15_ex_cols0 1 C15_ex_v)
+    as (g & Hj & Lg & _ & Hk).
+  - reflexivity.
+  - repeat constructor.
+  - repeat constructor; cbn; auto; try discriminate; lia.
+  - reflexivity.
+  - reflexivity.
+  - split; [|split]; cbn.
+    + repeat constructor; try discriminate; lia.
+    + repeat constructor; cbn; intuition lia.
+    + intros j Hj'. cbn. lia.
+  - apply bg_mode_ok_builtin; [auto|]. cbn. split.
+    + repeat constructor; try discriminate; lia.
+    + repeat constructor; cbn; intuition lia.
+  - reflexivity.
+  - intros c [<-|[<-|[]]]; split; reflexivity.
+  - intros P rest H c i Hc Hi. cbn in H. inversion H; subst P.
+    destruct Hc as [<-|[<-|[]]]; destruct Hi as [<-|[]]; unfold ok_iso2d; cbn; lra.
+  - exists g. split; [exact Hj|]. split; [exact Lg|]. exact Hk.
+Qed.
